@@ -119,9 +119,10 @@ func init() {
 	add("C20", limitThenProject, insertNoErr, noGuard)
 
 	convGone := Mutant{"uint32-conversion-removed", "uda/uda.go", "\tcase []uint32:\n\t\toutCol = make([]float32, len(cc))\n\t\tfor i := range cc {\n\t\t\toutCol[i] = float32(cc[i])\n\t\t}\n", "", "R23.1"}
-	sharedProto := Mutant{"new-returns-prototype", "uda/min/min.go", "\tmn := &Min{\n\t\tIsInitialized: false,\n\t\tMin:           0,\n\t}\n", "\tmn := &m\n", "R23.2"}
+	// (removed) "new-returns-prototype": `mn := &m` in a value-receiver New still returns a fresh copy per call — the mutant did not change behaviour, so missing it was right
+	_ = 0
 	noEmptyGuard := Mutant{"empty-input-not-guarded", "uda/min/min.go", "\tif cols.Len() == 0 {\n\t\treturn m.Output(), nil\n\t}\n", "", "R23.3"}
-	add("C23", convGone, sharedProto, noEmptyGuard)
+	add("C23", convGone, noEmptyGuard)
 
 	unionSwapped := Mutant{"stale-cache-wins", "contrib/ondiskagg/aggtrigger/aggtrigger.go", "cs = io.ColumnSeriesUnion(&c.cs, cs)", "cs = io.ColumnSeriesUnion(cs, &c.cs)", "R24.1"}
 	add("C24", unionSwapped)
